@@ -39,7 +39,7 @@ Proof. exact wedge_bin_dc. Qed.
 Theorem C08_bin_sym : forall v0 v1 k0 k1 k2, wedge_bin v0 v1 (- k0, - k1, - k2) = wedge_bin v0 v1 (k0, k1, k2).
 Proof. exact wedge_bin_symmetric. Qed.
 
-Theorem C08_entry_points : legacy_tilt_range_honoured = true /\ nowedge_is_ones = true /\ union_is_maximum = true.
+Theorem C08_entry_points : legacy_tilt_range_honoured = true /\ nowedge_is_ones = true /\ union_is_maximum = true /\ factories_as_modelled = true.
 Proof. exact entry_points_agree. Qed.
 
 Print Assumptions C08_grid.
